@@ -169,8 +169,38 @@ def dict_attr_literal(ctx, cls, attr):
     return found
 
 
-def must_keys(ctx, func, var, sink_call, initial_unknown=True):
-    """State of dict variable `var` immediately before `sink_call` is invoked."""
+def returned_keys(ctx, g, depth=0):
+    """Must-key state of the dict a repo function returns (join over its returns)."""
+    if depth > 3 or g.is_lambda:
+        return None
+    cfg = ctx.cfg(g)
+    states = []
+    for r in cfg.live:
+        if r.kind != "return":
+            continue
+        v = r.ast.value
+        if isinstance(v, ast.Name):
+            st = must_keys(ctx, g, v.id, None, at_node=r, depth=depth + 1)
+            if st is None:
+                return None
+            states.append(st)
+        elif isinstance(v, ast.Dict):
+            pres = {}
+            for k, val in zip(v.keys, v.values):
+                ok, kk = ctx.try_fold(g, k) if k is not None else (False, None)
+                if ok and isinstance(kk, str):
+                    pres[kk] = (ast.dump(val), val)
+            states.append(KeyState(pres, frozenset()))
+        else:
+            return None
+    if not states:
+        return None
+    return _join_keys(states)
+
+
+def must_keys(ctx, func, var, sink_call, initial_unknown=True, at_node=None, depth=0):
+    """State of dict variable `var` immediately before `sink_call` is invoked (or on
+    entry to `at_node`)."""
     cfg = ctx.cfg(func)
 
     def keyfold(e):
@@ -257,6 +287,12 @@ def must_keys(ctx, func, var, sink_call, initial_unknown=True):
                         st2 = KeyState(pres, frozenset())
                     else:
                         st2 = KeyState({}, frozenset())
+                        if isinstance(s.value, ast.Call):
+                            tg = [g for g in ctx.targets(func, s.value)]
+                            if len(tg) == 1 and tg[0] is not func:
+                                rk = returned_keys(ctx, tg[0], depth)
+                                if rk is not None:
+                                    st2 = KeyState(rk.present, frozenset())
         elif n.kind == "stmt" and isinstance(s, ast.Delete):
             for t in s.targets:
                 if isinstance(t, ast.Subscript) and isinstance(t.value, ast.Name) and t.value.id == var:
@@ -267,6 +303,8 @@ def must_keys(ctx, func, var, sink_call, initial_unknown=True):
         return st2
 
     IN = forward(cfg, KeyState({}, frozenset()), transfer, _join_keys)
+    if at_node is not None:
+        return IN.get(at_node)
     # locate sink node
     for n in cfg.live:
         for c, _m in calls_in_node(n):
@@ -316,7 +354,20 @@ def const_value(ctx, scope, e):
 _TOP = ("top",)
 
 
-def infeasible_edges(cfg, func, avoid_edges=()):
+def _surely_not_none(e):
+    if isinstance(e, (ast.JoinedStr, ast.List, ast.Dict, ast.Tuple, ast.Set, ast.ListComp, ast.DictComp)):
+        return True
+    if isinstance(e, ast.BinOp) and isinstance(e.op, (ast.Mod, ast.Add)) and (isinstance(e.left, ast.Constant) and isinstance(e.left.value, str)):
+        return True
+    if isinstance(e, ast.Call):
+        if isinstance(e.func, ast.Attribute) and e.func.attr in ("format", "join", "copy", "encode", "decode"):
+            return True
+        if isinstance(e.func, ast.Name) and e.func.id in ("str", "repr", "list", "dict", "tuple", "set", "int", "float", "bool", "len"):
+            return True
+    return False
+
+
+def infeasible_edges(cfg, func, avoid_edges=(), start=None):
     """Branch out-edges (test node, label) that cannot be taken because the tested local
     name certainly holds a known constant there (e.g. `x = None ... if x:`)."""
     def transfer(n, st, lab):
@@ -330,6 +381,8 @@ def infeasible_edges(cfg, func, avoid_edges=()):
                 for nm in [x for x in ast.walk(t) if isinstance(x, ast.Name)]:
                     if isinstance(t, ast.Name) and isinstance(s.value, ast.Constant):
                         new[nm.id] = ("c", s.value.value)
+                    elif isinstance(t, ast.Name) and _surely_not_none(s.value):
+                        new[nm.id] = ("notnone",)
                     elif isinstance(t, ast.Name):
                         new[nm.id] = _TOP
                     elif isinstance(t, (ast.Tuple, ast.List)):
@@ -364,7 +417,7 @@ def infeasible_edges(cfg, func, avoid_edges=()):
     def tr(n, st, lab):
         r = transfer(n, dict(st), lab)
         return r if isinstance(r, tuple) else tuple(sorted(r.items()))
-    IN = forward(cfg, tuple(), tr, join, avoid_edges=set(avoid_edges))
+    IN = forward(cfg, tuple(), tr, join, avoid_edges=set(avoid_edges), start=start)
     out = set()
     for t in cfg.live:
         if t.kind != "test" or IN.get(t) is None:
@@ -375,8 +428,15 @@ def infeasible_edges(cfg, func, avoid_edges=()):
 
         def known(nm):
             v = st.get(nm)
-            return v if (v is not None and v != _TOP) else None
-        if isinstance(e, ast.Name) and known(e.id):
+            return v if (v is not None and v != _TOP and v[0] == "c") else None
+
+        def notnone(nm):
+            v = st.get(nm)
+            return v is not None and v != _TOP and (v[0] == "notnone" or (v[0] == "c" and v[1] is not None))
+        if isinstance(e, ast.Compare) and len(e.ops) == 1 and isinstance(e.left, ast.Name) and notnone(e.left.id) and not known(e.left.id) \
+                and isinstance(e.comparators[0], ast.Constant) and e.comparators[0].value is None and isinstance(e.ops[0], (ast.Is, ast.IsNot)):
+            val = isinstance(e.ops[0], ast.IsNot)
+        elif isinstance(e, ast.Name) and known(e.id):
             val = bool(known(e.id)[1])
         elif isinstance(e, ast.UnaryOp) and isinstance(e.op, ast.Not) and isinstance(e.operand, ast.Name) and known(e.operand.id):
             val = not bool(known(e.operand.id)[1])
